@@ -310,6 +310,26 @@ def drq_dependent_outputs(q, mb):
     return dep
 
 
+def _requested_granularities(q, mb, op_name):
+    """weight granularities the exported recipe resolves for the operators of that kind (fresh resolution)"""
+    from . import oracles as orc
+    m = pl.read(mb)
+    out = set()
+    for sg in m.subgraphs:
+        for op in sg.operators:
+            if orc.op_key_of(m.operatorCodes[op.opcodeIndex].builtinCode) != op_name:
+                continue
+            scope = "".join(pl.tname(sg.tensors[t]) + ";" for t in op.outputs if t != -1)
+            try:
+                _alg, cfg = orc.resolve(q, op_name, scope)
+                wc = cfg.weight_tensor_config
+                if wc is not None:
+                    out.add(str(getattr(wc.granularity, "value", wc.granularity)))
+            except Exception:  # noqa: BLE001
+                pass
+    return out
+
+
 def compare_float_modes(ctx, interp, case, res, fail):
     """C06: weight-only / float16 / dynamic-range models vs the float model with dequantized constants"""
     modes = modes_in(res["q"], case.mb) - {"none"}
@@ -360,6 +380,9 @@ def compare_float_modes(ctx, interp, case, res, fail):
                         cls = producer_class(res["out"], sig, k)
                     if cls is None or ":" not in cls:
                         cls = upstream_variant(res["out"], sig, k) or cls
+                    if cls and "hybrid-tensorwise" in cls and "TENSORWISE" not in _requested_granularities(res["q"], case.mb, "DEPTHWISE_CONV_2D"):
+                        # finding D27 is about a TENSORWISE config; a per-tensor weight nobody asked for is another matter
+                        cls += "!no-tensorwise-config"
                     return fail(f"output {k} differs from the float model with dequantized constants by "
                                 f"{float(np.max(np.abs(ya - yb))):.4g} (tolerance {tol:.4g}, modes {sorted(modes)}, first operator off: {cls})",
                                 f"c06-mismatch:{cls}")
